@@ -17,8 +17,13 @@
   * `compress_no_equal_neighbours` : adjacent records differ in value;
   Bits:
   * `bit_put_exact`    : writing `n` bits at bit `b` changes exactly those bits.
+  Text encoding (Codec.TextScan: the fscanf loop of `_GD_AsciiRead` over the formats,
+  conversion counts and padding line that extractor X9 reads from src/ascii.c):
+  * `TextPad.padding_reads_back` : for every type and every gap length the padding a
+                         write past the end leaves is read back in full.
 -/
 import GdModel.Codec.Flat
+import GdModel.Codec.TextScan
 
 namespace GdModel.Props.C03
 open GdModel.Codec
@@ -168,6 +173,87 @@ theorem bit_put_exact (old v b n : Nat) :
   · rw [Nat.add_mul_mod_self_left, Nat.mod_eq_of_lt ho]
   · rw [← Nat.div_div_eq_div_mul, Nat.add_mul_div_left _ _ hb, Nat.div_eq_of_lt ho, Nat.zero_add,
       Nat.add_mul_div_left _ _ hn, Nat.div_eq_of_lt hv, Nat.zero_add]
+
+/-! ### text encoding: the padding of a gap can be read back (defect 5.84) -/
+namespace TextPad
+open GdModel.Codec.TextScan GdModel.Generated
+
+/-- every row of the extracted table has one of the two shapes `%<num>\n` and
+    `%<num>;%<num>\n`, with the padding line and the required conversion count of
+    the current source (X9 regenerates all of them on every run) -/
+theorem table_shapes :
+    ∀ row ∈ asciiScanDirs,
+      (row.2.1 = false ∧ row.2.2 = [.num, .ws] ∧ padOf false = [48, 10] ∧ needOf false = 1) ∨
+      (row.2.1 = true ∧ row.2.2 = [.num, .lit 59, .num, .ws] ∧ padOf true = [48, 59, 48, 10] ∧ needOf true = 2) := by
+  decide
+
+theorem scan_real_pad (rest : List Nat) (h : rest = [] ∨ ∃ t, rest = 48 :: t) :
+    scan [.num, .ws] ([48, 10] ++ rest) = (1, rest) := by
+  rcases h with rfl | ⟨t, rfl⟩ <;>
+    simp [scan, scanNum, skipWs, dropDigits, isWs, isDigit]
+
+theorem scan_complex_pad (rest : List Nat) (h : rest = [] ∨ ∃ t, rest = 48 :: t) :
+    scan [.num, .lit 59, .num, .ws] ([48, 59, 48, 10] ++ rest) = (2, rest) := by
+  rcases h with rfl | ⟨t, rfl⟩ <;>
+    simp [scan, scanNum, skipWs, dropDigits, isWs, isDigit]
+
+theorem padFile_shape (pad : List Nat) (t : List Nat) (hp : pad = 48 :: t) (n : Nat) :
+    padFile pad n = [] ∨ ∃ u, padFile pad n = 48 :: u := by
+  cases n with
+  | zero => left; simp [padFile]
+  | succ m => right; subst hp; simp [padFile, List.replicate_succ]
+
+theorem padFile_succ (pad : List Nat) (n : Nat) : padFile pad (n + 1) = pad ++ padFile pad n := by
+  simp [padFile, List.replicate_succ]
+
+theorem readAll_real (n fuel : Nat) (hf : n ≤ fuel) :
+    readAll [.num, .ws] 1 fuel (padFile [48, 10] n) = n := by
+  induction n generalizing fuel with
+  | zero => cases fuel <;> simp [readAll, padFile]
+  | succ m ih =>
+    cases fuel with
+    | zero => omega
+    | succ f =>
+      rw [padFile_succ]
+      have hs := scan_real_pad (padFile [48, 10] m) (padFile_shape _ [10] rfl m)
+      unfold readAll
+      rw [if_neg (by simp), hs]
+      simp only [Nat.lt_irrefl, if_false]
+      rw [ih f (by omega)]
+
+theorem readAll_complex (n fuel : Nat) (hf : n ≤ fuel) :
+    readAll [.num, .lit 59, .num, .ws] 2 fuel (padFile [48, 59, 48, 10] n) = n := by
+  induction n generalizing fuel with
+  | zero => cases fuel <;> simp [readAll, padFile]
+  | succ m ih =>
+    cases fuel with
+    | zero => omega
+    | succ f =>
+      rw [padFile_succ]
+      have hs := scan_complex_pad (padFile [48, 59, 48, 10] m) (padFile_shape _ [59, 48, 10] rfl m)
+      unfold readAll
+      rw [if_neg (by simp), hs]
+      simp only [Nat.lt_irrefl, if_false]
+      rw [ih f (by omega)]
+
+/-- **a gap padded by a write past the end reads back, for every type and every
+    gap length**: the reader returns all `n` padding samples (it does not stop at
+    the first of them, which is what made the whole field unreadable in 5.84) -/
+theorem padding_reads_back :
+    ∀ row ∈ asciiScanDirs, ∀ (n fuel : Nat), n ≤ fuel →
+      readAll row.2.2 (needOf row.2.1) fuel (padFile (padOf row.2.1) n) = n := by
+  intro row hrow n fuel hf
+  rcases table_shapes row hrow with ⟨hc, hd, hp, hn⟩ | ⟨hc, hd, hp, hn⟩
+  · rw [hc, hd, hp, hn]; exact readAll_real n fuel hf
+  · rw [hc, hd, hp, hn]; exact readAll_complex n fuel hf
+
+/-- what the code did before the repair: the line `0` for a complex type gives one
+    conversion where two are needed, and nothing at all is read -/
+example : readAll [.num, .lit 59, .num, .ws] 2 10 (padFile [48, 10] 2 ++ [49, 59, 50, 10]) = 0 := by decide
+/-- with the repaired padding the data after the gap are reached -/
+example : readAll [.num, .lit 59, .num, .ws] 2 10 (padFile [48, 59, 48, 10] 2 ++ [49, 59, 50, 10]) = 3 := by decide
+
+end TextPad
 
 /-- non-vacuity / concrete checks -/
 example : Flat.put 0 [1, 2, 3] 5 [9, 9] = [1, 2, 3, 0, 0, 9, 9] := by decide
